@@ -153,6 +153,8 @@ pub fn run(ctx: &mut Ctx, level: usize) {
     let names = ["-G", "vkA_fixed_com_1", "vkA_fixed_com_10", "vkB_perm_com_0"];
     // (lhs key set, rhs key set) per member
     let mut patterns: Vec<Vec<(usize, usize)>> = vec![
+        // the empty slice: the neutral accumulator, no cell assigned (regression of f706bff)
+        vec![],
         vec![(0, 0b0011)],
         vec![(0, 0b0001), (0, 0b0110)],
         vec![(0, 0b0011), (0, 0b0011)],
@@ -206,6 +208,11 @@ pub fn run(ctx: &mut Ctx, level: usize) {
                     if k < 14 && (p.contains("ot enough") || p.contains("usable_rows")) {
                         continue;
                     }
+                    if pat.is_empty() {
+                        ctx.oracle_fail("accumulate:empty-slice-panics", "AssignedAccumulator::accumulate(&[]) panics instead of returning a value", json!({"op": line, "k": k, "panic": p}));
+                        ctx.case("aaccumulate:in-circuit", false, line.trim_end(), "panic");
+                        break;
+                    }
                     ctx.oracle_fail("in-circuit-accumulate:panic", "AssignedAccumulator::accumulate panics", json!({"op": line, "k": k, "panic": p}));
                     break;
                 }
@@ -216,7 +223,7 @@ pub fn run(ctx: &mut Ctx, level: usize) {
                 ctx.oracle_fail("in-circuit-accumulate:no-value", "AssignedAccumulator::accumulate produced no value with known witnesses", json!({"op": line}));
                 break;
             };
-            ctx.case("aaccumulate:in-circuit", pat.len() > 1, &line, &hexl(&val));
+            ctx.case("aaccumulate:in-circuit", pat.len() > 1, line.trim_end(), &hexl(&val));
             // three-way: in-circuit value = off-circuit Accumulator::accumulate
             if val != pi_off {
                 ctx.oracle_fail("accumulate:in-circuit-differs", "AssignedAccumulator::accumulate computes a different accumulator than the off-circuit Accumulator::accumulate on the same members", json!({"op": line, "in_circuit": hexl(&val), "off_circuit": lacc_str(&off, &pts)}));
@@ -227,9 +234,13 @@ pub fn run(ctx: &mut Ctx, level: usize) {
                 ctx.oracle_fail("accumulate:in-circuit-rejects-off-circuit-result", "the circuit exposing AssignedAccumulator::accumulate(accs) is not satisfied by as_public_input(Accumulator::accumulate(accs))", json!({"op": line}));
             }
             let mut alt = pi_off.clone();
-            let pos = (rng.next_u64() as usize) % alt.len();
-            alt[pos] += F::ONE;
-            let bad = catch(|| MockProver::run(k, &circuit, vec![vec![], alt]).map(|p| p.verify().is_ok()).unwrap_or(false)).unwrap_or(false);
+            let pos = (rng.next_u64() as usize) % alt.len().max(1);
+            if alt.is_empty() {
+                alt.push(F::ONE); // an instance where there should be none
+            } else {
+                alt[pos] += F::ONE;
+            }
+            let bad = !pi_off.is_empty() && catch(|| MockProver::run(k, &circuit, vec![vec![], alt]).map(|p| p.verify().is_ok()).unwrap_or(false)).unwrap_or(false);
             if bad {
                 ctx.oracle_fail("accumulate:in-circuit-accepts-altered-instance", "the circuit exposing AssignedAccumulator::accumulate(accs) is satisfied by an altered instance", json!({"op": line, "position": pos}));
             }
